@@ -47,7 +47,9 @@ def main():
         del args[i:i + 2]
     run_all = "--all" in args
     args = [a for a in args if a != "--all"]
-    patch, demo_path, props = args[0], args[1], args[2:]
+    patch, demo_path, props = os.path.abspath(args[0]), args[1], args[2:]
+    if demo_path != "-":
+        demo_path = os.path.abspath(demo_path)
     if run_all:
         props = props + [p for p in ALL if p not in props]
     rc, out = sh(["git", "-C", "/repo", "status", "--porcelain"])
